@@ -344,7 +344,7 @@ fn gen_c06_conditional(rng: &mut Rng) -> Node {
 
 fn gen_c06(rng: &mut Rng) -> Node {
     let rep = |body: Node, q: (usize, Option<usize>), greedy: bool| Node::Repeat { body: Box::new(body), min: q.0, max: q.1, greedy, spell: 0 };
-    let quants: [(usize, Option<usize>); 10] = [(0, None), (1, None), (0, Some(1)), (2, Some(2)), (2, None), (0, Some(2)), (0, Some(0)), (1, Some(3)), (3, None), (2, Some(5))];
+    let quants: [(usize, Option<usize>); 12] = [(0, None), (1, None), (0, Some(1)), (2, Some(2)), (2, None), (0, Some(2)), (0, Some(0)), (1, Some(3)), (3, None), (2, Some(5)), (1, Some(30000)), (0, Some(4000))];
     let ch = |rng: &mut Rng| Node::Char(*rng.pick(&['a', 'b', 'c']));
     let body = |rng: &mut Rng| -> Node {
         match rng.below(14) {
@@ -365,7 +365,20 @@ fn gen_c06(rng: &mut Rng) -> Node {
         }
     };
     let q = |rng: &mut Rng| *rng.pick(&quants);
-    let n = match rng.below(8) {
+    let n = match rng.below(9) {
+        // a body that consumes the line break in one branch and tests a line boundary in another:
+        // the zero-width branch becomes possible again at positions the loop itself has reached
+        8 => {
+            let mut alts = vec![Node::Char('\n'), Node::Char(*rng.pick(&['a', 'b'])), if rng.chance(1, 2) { Node::Bol } else { Node::Eol }];
+            if rng.chance(1, 2) {
+                alts.swap(0, 2);
+            }
+            if rng.chance(1, 3) {
+                alts.swap(1, 2);
+            }
+            let b = Node::NcGroup(Box::new(Node::Alt(alts)));
+            Node::Cat(vec![rep(b, *rng.pick(&[(0, None), (1, None), (2, None)]), rng.chance(1, 3)), ch(rng)])
+        }
         0 => Node::Cat(vec![rep(body(rng), q(rng), rng.chance(1, 2)), ch(rng)]),
         1 => Node::Cat(vec![ch(rng), rep(body(rng), q(rng), rng.chance(1, 2)), ch(rng)]),
         2 => {
@@ -543,8 +556,12 @@ impl Monitor for C06 {
                 continue;
             }
             made += 1;
-            let fl = *rng.pick(&["", "", "m", "s", "i"]);
-            let inp: String = gen_input(&mut rng, &ast, &['a', 'b', 'c', '\n'], C06_MAX_INPUT).chars().take(C06_MAX_INPUT).collect();
+            let fl = *rng.pick(&["", "", "m", "m", "s", "i"]);
+            let mut inp: String = gen_input(&mut rng, &ast, &['a', 'b', 'c', '\n'], C06_MAX_INPUT).chars().take(C06_MAX_INPUT).collect();
+            if rng.chance(1, 6) {
+                // a line break in front, and a tail the pattern cannot finish on
+                inp = format!("\n{}", inp).chars().take(C06_MAX_INPUT - 1).collect::<String>() + "c";
+            }
             emit(Case::new(&ast, fl, &inp));
         }
         // (d) conditionally zero-width loop bodies on longer inputs, for the zero-width run monitor
@@ -665,6 +682,13 @@ impl Monitor for C07 {
             return Outcome::Violated(vec![Finding::new("valid_flags_rejected", "Err(InvalidFlags)".to_string(), "flags over {s,m,i,x,q} are valid")]);
         }
         let verdict = if c.flags.contains('q') { Parsed::Valid(Node::Empty) } else { grammar::parse(&c.pattern, false, c.flags.contains('x')) };
+        if c.aux.as_deref() == Some("hyphen_edges") {
+            obs.count(match &verdict {
+                Parsed::Valid(_) => "hyphen_edge_oracle_valid",
+                Parsed::Invalid(_) => "hyphen_edge_oracle_invalid",
+                Parsed::Unsure(_) => "hyphen_edge_oracle_unsure",
+            });
+        }
         match verdict {
             Parsed::Unsure(r) => {
                 obs.count(&format!("unsure[{}]", r));
@@ -754,6 +778,45 @@ impl Monitor for C07 {
                 }
             }
         }
+        // (d) unescaped hyphens at the edges of character groups, where the grammar reads them as
+        // characters: [x-], [-x], [^-x], [x-y-], [x--[y]], [x-y--[z]], [\d--[5]], [--[b]], and the
+        // same inside larger patterns; the recogniser decides each one (adjacent hyphens that it
+        // cannot place stay 'unsure' and are not judged)
+        let nh = w.share(20_000, 400_000);
+        for _ in 0..nh {
+            let ch = |rng: &mut Rng| *rng.pick(&['a', 'b', 'c', 'z', '0', '9', '+', '.', '_']);
+            let part = |rng: &mut Rng| -> String {
+                match rng.below(5) {
+                    0 => format!("{}-{}", 'a', *rng.pick(&['c', 'f', 'z'])),
+                    1 => "\\d".to_string(),
+                    2 => format!("{}{}", ch(rng), ch(rng)),
+                    3 => "\\n".to_string(),
+                    _ => ch(rng).to_string(),
+                }
+            };
+            let neg = if rng.chance(1, 4) { "^" } else { "" };
+            let sub = format!("[{}]", ch(&mut rng));
+            let cls = match rng.below(8) {
+                0 => format!("[{}{}-]", neg, part(&mut rng)),
+                1 => format!("[{}-{}]", neg, part(&mut rng)),
+                2 => format!("[{}{}--{}]", neg, part(&mut rng), sub),
+                3 => format!("[{}{}{}--{}]", neg, part(&mut rng), part(&mut rng), sub),
+                4 => format!("[--{}]", sub),
+                5 => format!("[{}{}-{}]", neg, part(&mut rng), sub),
+                6 => format!("[{}{}--]", neg, part(&mut rng)),
+                _ => format!("[{}--{}]", neg, ch(&mut rng)),
+            };
+            let p = match rng.below(4) {
+                0 => cls,
+                1 => format!("^{}+$", cls),
+                2 => format!("(?:{}|z){{2}}", cls),
+                _ => format!("x{}*y", cls),
+            };
+            let mut c = Case::raw(&p, *rng.pick(&["", "", "i", "x"]), "");
+            c.aux = Some("hyphen_edges".to_string());
+            emit(c);
+        }
+        desc.set("hyphen_edge_patterns_this_shard", J::u(nh));
         desc.set("random_patterns_this_shard", J::u(n));
         desc
     }
